@@ -33,6 +33,16 @@ Readings chosen (where the property text leaves room):
 * NaN / inf in a parameter column or in a decoded onset / duration is a failure of its own whenever something is matched.
   The two open findings are exactly: a grace note decodes to duration 0 (F-C18-2), a note played for less than 0.075 s to
   0.075 s (F-C18-4); any other decoded duration of such a note is judged like every other note's.
+* `beat_period_standardized` stores z, mean and std as float32 and the decoder evaluates z*std + mean in float32: a beat period
+  smaller than 2^-21 of the two terms that cancel (|z*std| + mean) is not represented by the parameters at all (it can come back
+  with the wrong sign, and PerformedPart refuses the negative duration).  Such a combination - seen only when score onsets 1e-4
+  beat apart meet performed onsets that collide - is neither decoded nor judged (thorough tier, round 5).
+* performed onsets of successive score onsets may be EQUAL as the codec sees them (a strictly positive inter-onset interval below
+  the float32 resolution of a late passage, or exactly equal onsets): the round-trip clauses are judged on them like on any other
+  performance (monotonize_times interpolates over the plateau; seeded change C18-i).
+* `include_score_markings=True` adds columns and nothing else: the table holds the same rows in the same order under the same
+  ids as without, for a score object and for a note array, and every marking column holds what the score-side note table
+  (`compute_note_array` with the four feature functions) says about that note (repairs C18-12, C18-13).
 * "beat period": seconds per beat.  For the two built-in tempo curves every beat period is a slope of a piecewise linear
   function through (matched score onset or `last_time`, time inside the performance), so it cannot exceed
   (span of the matched performance + 1) / (smallest interval between these score times); the score times are taken from the
@@ -51,59 +61,90 @@ from core import Eval
 PROPERTY = "C18"
 DRIVER = "drv_c18"
 PROPS = ["PartituraModel.Props.C18", "PartituraModel.Props.C18Real", "PartituraModel.Props.C18Pipeline",
-         "PartituraModel.Props.C18Hist"]
+         "PartituraModel.Props.C18Hist", "PartituraModel.Props.C18Ext", "PartituraModel.Props.C18Src", "PartituraModel.Props.C18Float"]
 TRUSTED = [
     "numpy argsort(kind='mergesort') / lexsort are stable; np.unique = sorted distinct values; np.split; np.maximum.accumulate",
     "scipy interp1d linear with fill_value='extrapolate' (knots sorted stably by x, segment by searchsorted-left clipped to 1..n-1); "
-    "kind='zero' evaluated at its own knots returns the knot values (tempo_by_average samples its step function there)",
-    "binary64 arithmetic of the codec and float32 storage of the parameters: the model is exact; the tempo curves are compared in "
-    "binary64 within 1e-7, encoder outputs within 2^-18, decoder outputs (float32 group means and rescaling, binary64 accumulation) "
-    "within 2^-20 (for standardized: times the cancellation factor of z*std + mean)",
+    "scipy interp1d kind='zero' with bounds_error=False, fill_value=(lo, hi): the value of the last knot at or before the query, lo / hi "
+    "outside the knots (model `zeroHold`, compared on its own stream `zh`); that tempo_by_average's default sampling returns the beat "
+    "periods themselves is no longer assumed but proved (tempo_average_default)",
+    "binary64 arithmetic of the codec: the model is exact; the tempo curves are compared in binary64 within 1e-7, encoder outputs within "
+    "2^-18, decoder outputs (float32 group means and rescaling, binary64 accumulation) within 2^-20 (for standardized: times the "
+    "cancellation factor of z*std + mean).  The float32 STORAGE of the logarithmic columns, of the articulation and of the velocity is "
+    "covered by theorems (Props/C18Float exp2_stored_column, decoded_duration_stored; velocity_roundtrip_float32) whose bounds lie below "
+    "these tolerances (stored_log_tolerance, decoded_duration_tolerance)",
     "log2 / 2**x in binary32/64: the model works with the articulation RATIO and with 2^column for the two logarithmic "
     "normalisations (the harness exponentiates the stored columns); performance_roundtrip takes E(L r) = r for r > 0 as a hypothesis, "
     "proved for log2 / 2^x over the reals (Props/C18Real exp2_log2)",
     "np.std (a square root) enters the model as a parameter (StdOk: its square is the variance of the beat periods)",
-    "note_array() / compute_note_array() (property C05) provide the score table; PerformedPart.note_array() the performance table",
+    "note_array() / compute_note_array() (property C05) provide the score table, with include_score_markings also the voice and the "
+    "*feature* columns (the model carries their names and the voice column; the oracle compares their values with the table); "
+    "PerformedPart.note_array() the performance table; PerformedPart(notes).notes hands the decoded notes back as given",
     "histories: an in-place edit enters the model as the change it makes to the note table (row of the note replaced / dropped / "
     "added, read off two fresh builds); that Part.add / remove / attribute assignment change note_array() that way is C01 / C05",
-    "np.isclose in get_unique_seq (repair C18-11) is modelled over exact rationals: |a - b| <= 1e-8 + 1e-5 |b|",
+    "np.isclose in get_unique_seq (repair C18-11) is modelled over exact rationals: |a - b| <= 1e-8 + 1e-5 |b| (the two numbers are "
+    "numpy's defaults, regenerated into Gen/C18Lits on every run)",
+    "harness/translate_c18.py (ast over the live performance_codec.py / generic.py): the scale / rescale bodies, constants, column "
+    "names, list literals and defaults it emits are what the source says (Props/C18Src ties the model to them)",
 ]
 PARTIAL = [
     "duration_roundtrip_partial / matched_row_duration_partial / the duration clause of performance_roundtrip: performed durations "
     "below 0.075 s are replaced by 0.075 s in to_matched_score (open finding F-C18-4)",
     "articulation_grace_partial: the performed duration of grace notes (score duration 0) decodes to 0 (open finding F-C18-2)",
-    "performance_roundtrip assumes unique score ids (decode_performance looks an id up by its last row, to_matched_score by its "
-    "first) and snote_ids as returned by the encoder; for snote_ids NOT ordered by (onset_div, pitch) decode_performance zips the "
-    "given ids with the re-sorted notes - modelled and compared on hand-made tables, outside the property (its parameters come from "
-    "encode_performance)",
+    "performance_roundtrip_matched_ids needs every id NAMED BY A MATCH to occur once in the score (decode_performance looks an id up "
+    "by its last row, to_matched_score by its first; duplicate_matched_id_breaks: the condition cannot be dropped) and snote_ids as "
+    "returned by the encoder; for snote_ids in another order decode_user_ids states exactly what is returned (values in sorted "
+    "order, labels in the given order) - outside the property (its parameters come from encode_performance)",
     "a user-supplied tempo callable is covered by timing_roundtrip for any positive beat-period sequence; positivity is proved for the "
-    "two built-in methods only",
-    "float rounding is outside the theorems (exact rationals / reals); it is bounded by the oracle's tolerance on every case",
+    "two built-in methods only (at any input_onsets, for the built-in grouping; a caller's unique_onset_idxs is modelled and compared "
+    "for coarser groupings, not covered by a theorem)",
+    "rounding inside the binary64 / float32 ARITHMETIC (the float32 timing column, float32 group means, z*std + mean) is outside the "
+    "theorems (exact rationals / reals) and bounded by the oracle's tolerance on every case; only the storage roundings named in "
+    "TRUSTED are proved",
+    "the VALUES of the feature columns of include_score_markings=True are judged by the oracle against compute_note_array, not modelled",
 ]
 RULE = ("seeded random single-part scores (1-3 voices, chords, ties, grace notes, grace notes at the very end of the part, optional "
         "pickup, divisions 1..24 and rare large divisions; built plainly or with read-only views interleaved - gen_score `warm`; "
         "passed as Part or as Score, the performance as PerformedPart or Performance) x note-for-note performances on a dyadic grid "
-        "(free IOIs, tempo-following IOIs, constant tempo, chord spread, rare non-monotone chord means, rare short notes) x "
+        "(free IOIs, tempo-following IOIs, constant tempo, chord spread, rare non-monotone chord means, rare short notes, `tie`: "
+        "successive score onsets performed at EXACTLY the same time, `late`: a passage 100..5000 s into the recording with "
+        "inter-onset intervals of microseconds that collide in the float32 note array) x "
         "alignments with deletions, insertions, ornaments, matches to unknown ids, shuffled order; in 3 of 10 cases the deletions "
         "are placed structurally (the performance stops at a grace note so that the matched table ends in notes without duration, "
         "stops / starts at an onset, first onset, main notes of grace notes, whole chords, everything but the grace notes, score "
         "ending in grace notes) x normalisation x tempo method (average, derivative, a user callable with arbitrary positive beat "
-        "periods); in 3 of 10 cases a HISTORY on one score object: 1-3 stages of uses of the codec (to_matched_score with and "
+        "periods); every codec case also with include_score_markings (score object); in 3 of 10 cases a HISTORY on one score "
+        "object: 1-3 stages of uses of the codec (to_matched_score with and "
         "without score markings, encode, encode+decode, time maps; with the case's or another performance / alignment) followed by "
         "in-place edits (note moved later, length changed, re-pitched, removed, new note), then the full evaluation on the edited "
-        "object; plus direct note-array tables with duplicate/missing ids (matched tables, decode_performance with any "
-        "subset/order of snote_ids), direct monotonize_times inputs (increasing, random, plateaus, decreasing, shuffled abscissae), "
+        "object; plus direct note-array tables with duplicate/missing ids and pitches outside 1..127 (matched tables with and without "
+        "markings, decode_performance with any subset/order of snote_ids, without snote_ids, with surplus / missing parameter rows, "
+        "with return_alignment), direct monotonize_times inputs (increasing, random, plateaus, non-decreasing plateaus, decreasing, "
+        "shuffled abscissae, no abscissae), direct ARRAYS for encode_tempo / decode_time / both tempo curves with input_onsets and a "
+        "coarser unique_onset_idxs (negative, unsorted, third-of-a-beat score onsets; ties, collisions, non-monotone performed onsets; "
+        "arrays of different lengths), direct inputs of the zero-order interpolator, get_unique_onset_idxs(eps, "
+        "return_unique_onsets), notewise_to_onsetwise / onsetwise_to_notewise (partitions, overlapping and out-of-range groups), "
         "time-map cases, exhaustive velocities 1..127 and random scale/rescale rows.  distinct = distinct structural key "
         "(kind, #notes, #groups, flags, history length, structural pattern, normalisation, method); non-trivial = at least two onset "
         "groups matched")
 LEVEL_TEXT = ("Lean theorems over exact rationals/reals for the whole pipeline: positivity of both built-in tempo curves for any performed "
-              "onsets (also when the matched table ends in notes without duration: last_time_grace_end), monotonize_times, "
+              "onsets - ties and collisions included - at the unique score onsets and at any input_onsets (tempo_average_at_pos, "
+              "tempo_derivative_at_pos; also when the matched table ends in notes without duration: last_time_grace_end), "
+              "monotonize_times with and without abscissae, the zero-order tempo function, "
               "timing/duration/velocity round trip composed with to_matched_score and decode_performance's bookkeeping "
-              "(performance_roundtrip), normalisations, matched tables and time maps from an alignment, and the same round trip after "
+              "(performance_roundtrip, performance_roundtrip_matched_ids with the weakest condition on ids), decode_performance with all "
+              "it returns (pitch clip, alignment, default and user-given snote_ids), the column dispatch of include_score_markings, "
+              "normalisations, matched tables and time maps from an alignment (monotone when the performed onsets are), the helpers "
+              "get_unique_onset_idxs(eps) / notewise<->onsetwise, proved bounds for the float32 storage of the logarithmic columns, "
+              "articulation and velocity, and the same round trip after "
               "any history of in-place edits and earlier uses of one score object (history_roundtrip, history_fresh); tied to the Python "
-              "code by differential testing of every intermediate table (matched score, onset groups, monotonized times, tempo curve of "
-              "either method in binary64, timing, articulation ratio, normalisation columns, encode_performance as a whole incl. "
-              "snote_ids, decoded notes, time-map knots and both maps, whole histories of edits and uses on one object), and by the "
+              "code by a translator that regenerates scale/rescale bodies, constants, column names and defaults from the live source "
+              "(Props/C18Src), by differential testing of every intermediate table (matched score with and without markings, onset "
+              "groups, monotonized times, tempo curve of "
+              "either method in binary64 at default and caller-given sampling points / groupings, timing, articulation ratio, "
+              "normalisation columns, encode_tempo and encode_performance as a whole incl. "
+              "snote_ids, decoded notes incl. pitch and returned alignment, time-map knots and both maps, whole histories of edits and "
+              "uses on one object), and by the "
               "oracle's comparison of every use with the same call on a fresh score of equal value.")
 
 NORMS = ["beat_period", "beat_period_log", "beat_period_ratio", "beat_period_ratio_log", "beat_period_standardized"]
@@ -279,15 +320,33 @@ def gen_codec(rng, tier, big=False, flavour=None):
         add_end_graces(rng, d)
     if struct == "stop_at_grace" and rng.random() < 0.6:
         add_grace_before(rng, d)
+    if rng.random() < 0.35 and d["notes"]:
+        # score markings (dynamics and tempo directions): what include_score_markings=True puts into the matched score
+        end = max(1, _end_of(d))
+        cuts = sorted(set([0, end] + [rng.randrange(0, end + 1) for _ in range(rng.choice([1, 2, 3]))]))
+        for a, b in zip(cuts, cuts[1:]):
+            r = rng.random()
+            if r < 0.45:
+                d["extras"].append(["ConstantLoudnessDirection", a, b, {"text": rng.choice(["pp", "p", "mf", "f", "ff"])}])
+            elif r < 0.65:
+                d["extras"].append([rng.choice(["IncreasingLoudnessDirection", "DecreasingLoudnessDirection"]), a, b, {"text": "hairpin"}])
+            elif r < 0.8:
+                d["extras"].append(["ConstantTempoDirection", a, b, {"text": rng.choice(["adagio", "allegro", "andante"])}])
+            elif r < 0.9:
+                d["extras"].append([rng.choice(["IncreasingTempoDirection", "DecreasingTempoDirection"]), a, b, {"text": "rit."}])
     if rng.random() < (0.5 if flavour == "hist" else 0.2):
         # read-only views interleaved with the construction of the part (gen_score.build_part)
         d["warm"] = rng.randrange(1, 128)
     hist = gen_hist(rng, d) if flavour == "hist" else []
     part = realise(dict(d, warm=0), hist)
     na = part.note_array()
-    mode = rng.choice(["free", "free", "tempo", "tempo", "const", "nonmono"])
+    mode = rng.choice(["free", "free", "tempo", "tempo", "const", "nonmono", "tie", "late"])
     short = rng.random() < 0.12
     t = _dy(rng, 16, 256, 64)
+    if mode == "late":
+        # a late passage: the single-precision note array of the performance resolves 8e-6 s at 100 s, 5e-4 s at 5000 s, so
+        # strictly positive inter-onset intervals of microseconds COLLIDE (equal performed onsets as the codec sees them)
+        t += rng.choice([100, 100, 300, 1000, 5000])
     base = rng.choice([0.25, 0.5, 0.5, 0.75, 1.0])
     perf, al = [], []
     last_div, last_beat = None, None
@@ -301,6 +360,12 @@ def gen_codec(rng, tier, big=False, flavour=None):
             ds = float(n["onset_beat"]) - last_beat
             if mode in ("free", "nonmono"):
                 t += _dy(rng, 1, 160, 64)
+            elif mode == "tie":
+                # successive score onsets performed at exactly the same time (and never earlier): a plateau of the mean
+                # performed onsets, which monotonize_times has to interpolate over
+                t += 0 if rng.random() < 0.4 else _dy(rng, 1, 160, 64)
+            elif mode == "late":
+                t += rng.randint(1, 40) * 1e-6 if rng.random() < 0.4 else _dy(rng, 1, 160, 64)
             elif mode == "tempo":
                 t += max(1, round(ds * base * 2 ** rng.uniform(-0.4, 0.4) * 256)) / 256
             else:
@@ -311,8 +376,10 @@ def gen_codec(rng, tier, big=False, flavour=None):
         if r < p_del and str(n["id"]) not in gone:
             al.append({"label": "deletion", "score_id": str(n["id"])})
             continue
-        if mode == "const":
+        if mode in ("const", "tie"):
             sp = 0
+        elif mode == "late":
+            sp = rng.choice([0, 0, 0, 1e-6, 3e-6, 1 / 128])
         elif mode == "nonmono":
             sp = rng.randint(-96, 96) / 128
         else:
@@ -385,6 +452,9 @@ def gen_tables(rng):
     sids = ["s%d" % rng.randint(0, 6) if rng.random() < 0.3 else "s%d" % i for i in range(ns)]
     pids = ["p%d" % rng.randint(0, 6) if rng.random() < 0.2 else "p%d" % i for i in range(npf)]
     score = [{"id": sids[i], "odiv": rng.randint(0, 4), "pitch": rng.randint(58, 62), "so": 0.0, "sd": rng.choice([0, 1, 2]) / 2} for i in range(ns)]
+    for sc in score:
+        if rng.random() < 0.08:
+            sc["pitch"] = rng.choice([0, -3, 128, 130])  # outside the MIDI range: decode_performance clips
     for s in score:
         s["so"] = s["odiv"] / 2
     perf = [{"id": pids[i], "on": _dy(rng, 0, 256, 64), "dur": rng.choice([_dy(rng, 1, 64, 256), _dy(rng, 5, 64, 64)]),
@@ -422,7 +492,7 @@ def gen_mono(rng):
         x += _dy(rng, 1, 48, 16)
     if rng.random() < 0.3:
         rng.shuffle(xs)
-    mode = rng.choice(["inc", "rand", "rand", "plateau", "dec"])
+    mode = rng.choice(["inc", "rand", "rand", "plateau", "dec", "incplateau"])
     ss, s = [], _dy(rng, 0, 256, 32)
     for _ in range(n):
         ss.append(s)
@@ -432,9 +502,101 @@ def gen_mono(rng):
             s += _dy(rng, -64, 64, 32)
         elif mode == "plateau":
             s += rng.choice([0, 0, _dy(rng, 1, 64, 32), -_dy(rng, 1, 64, 32)])
+        elif mode == "incplateau":
+            s += rng.choice([0, _dy(rng, 1, 64, 32)])  # never decreasing, not strictly increasing
         else:
             s -= _dy(rng, 0, 64, 32)
     return {"k": "mono", "xs": xs, "ss": ss, "mode": mode}
+
+
+def gen_arrays(rng):
+    """direct input of encode_tempo / decode_time / tempo_by_average / tempo_by_derivative: four arrays (score onsets that
+    may be negative, unsorted, a third of a beat apart; chords; notes without score duration), performed onsets of every
+    kind (free, exact ties between successive score onsets, non-monotone, a late passage with colliding onsets), optional
+    `input_onsets` and a coarser `unique_onset_idxs`, arrays of different lengths"""
+    g = rng.randint(1, 7)
+    so, sd, po, pd = [], [], [], []
+    t = _dy(rng, -8, 16, 4)
+    mode = rng.choice(["free", "free", "tie", "nonmono", "late"])
+    p = _dy(rng, 16, 256, 64) + (rng.choice([100, 1000]) if mode == "late" else 0)
+    third = rng.random() < 0.25
+    for k in range(g):
+        for _ in range(rng.choice([1, 1, 1, 2, 3])):
+            so.append(float(np.float32(t / 3)) if third else t)
+            sd.append(0 if rng.random() < 0.12 else _dy(rng, 1, 8, 4))
+            sp = 0 if mode in ("tie", "late") else (rng.randint(-96, 96) / 128 if mode == "nonmono" else rng.choice([0, 0, 1, -2, 3]) / 128)
+            po.append(max(0.0, p + sp))
+            pd.append(_dy(rng, 1, 128, 64))
+        t += rng.choice([1, 1, 2, 3, 4, 6]) / 4
+        if mode == "tie":
+            p += 0 if rng.random() < 0.4 else _dy(rng, 1, 160, 64)
+        elif mode == "late":
+            p += rng.randint(1, 40) * 1e-6 if rng.random() < 0.4 else _dy(rng, 1, 160, 64)
+        else:
+            p += _dy(rng, 1, 160, 64)
+    if mode == "late":
+        po = [float(np.float32(x)) for x in po]
+    if rng.random() < 0.3:
+        order = list(range(len(so)))
+        rng.shuffle(order)
+        so, sd, po, pd = ([a[i] for i in order] for a in (so, sd, po, pd))
+    d = {"k": "arrays", "so": so, "sd": sd, "po": po, "pd": pd, "mode": mode, "norm": rng.choice(NORMS), "seed": rng.randrange(1 << 30)}
+    r = rng.random()
+    if r < 0.12:
+        d["cut"] = rng.choice(["so", "po", "sd", "pd"])
+    elif r < 0.15:
+        d["cut"] = "all"
+    return d
+
+
+def gen_helpers(rng):
+    """direct inputs of the helpers: the zero-order interpolator of tempo_by_average, monotonize_times without abscissae,
+    get_unique_onset_idxs with eps / return_unique_onsets, notewise_to_onsetwise / onsetwise_to_notewise"""
+    n = rng.randint(1, 7)
+    xs, x = [], _dy(rng, -16, 16, 4)
+    for _ in range(n):
+        xs.append(x)
+        x += _dy(rng, 1, 12, 4)
+    ys = [_dy(rng, 1, 256, 64) for _ in xs]
+    ks = list(zip(xs, ys))
+    if rng.random() < 0.3:
+        rng.shuffle(ks)
+    qs = [xs[0] - 0.75, xs[-1] + 0.5] + list(xs) + [(a + b) / 2 for a, b in zip(xs, xs[1:])] + [_dy(rng, -80, 120, 8) for _ in range(3)]
+    m = rng.randint(1, 8)
+    mmode = rng.choice(["inc", "rand", "plateau", "incplateau", "dec"])
+    ss, v = [], _dy(rng, 0, 256, 32)
+    for _ in range(m):
+        ss.append(v)
+        v += {"inc": _dy(rng, 1, 64, 32), "rand": _dy(rng, -64, 64, 32), "plateau": rng.choice([0, 0, _dy(rng, 1, 64, 32), -_dy(rng, 1, 64, 32)]),
+              "incplateau": rng.choice([0, _dy(rng, 1, 64, 32)]), "dec": -_dy(rng, 0, 64, 32)}[mmode]
+    # onsets for get_unique_onset_idxs: clusters narrower / wider than eps
+    eps = rng.choice([1e-6, 1e-6, 0.0, 0.125, 0.5])
+    ons, o = [], _dy(rng, -8, 8, 4)
+    for _ in range(rng.randint(1, 8)):
+        ons.append(o)
+        o += rng.choice([0, 2 ** -21, 2 ** -19, 0.125, 0.25, 0.5, 1.0])
+    rng.shuffle(ons)
+    # a partition of range(k) into groups (shuffled), or - rarely - index lists that overlap / leave cells out / go too far
+    k = rng.randint(1, 8)
+    cells = list(range(k))
+    rng.shuffle(cells)
+    groups, i = [], 0
+    while i < k:
+        j = min(k, i + rng.choice([1, 1, 2, 3]))
+        groups.append(cells[i:j])
+        i = j
+    gkind = "partition"
+    r = rng.random()
+    if r < 0.1:
+        groups[-1] = groups[-1] + [groups[0][0]]
+        gkind = "overlap"
+    elif r < 0.18:
+        groups[0] = [groups[0][0] + k]
+        gkind = "outside"
+    vals = [_dy(rng, -64, 64, 8) for _ in range(k + (1 if gkind == "overlap" else 0))]
+    wvals = [_dy(rng, -64, 64, 8) for _ in range(len(groups) - (1 if rng.random() < 0.08 else 0))]
+    return {"k": "helpers", "ks": ks, "lo": _dy(rng, 1, 64, 16), "hi": _dy(rng, 1, 64, 16), "qs": qs, "ss": ss, "mmode": mmode,
+            "eps": eps, "ons": ons, "groups": groups, "gkind": gkind, "vals": vals, "wvals": wvals}
 
 
 def cases(rng, tier):
@@ -455,6 +617,12 @@ def cases(rng, tier):
     for _ in range(n_tab):
         sub = random.Random(rng.getrandbits(48))
         yield gen_scale(sub)
+    for _ in range({"quick": 120, "thorough": 2500, "search": 2500}[tier]):
+        sub = random.Random(rng.getrandbits(48))
+        yield gen_arrays(sub)
+    for _ in range({"quick": 80, "thorough": 1500, "search": 1500}[tier]):
+        sub = random.Random(rng.getrandbits(48))
+        yield gen_helpers(sub)
 
 
 # ---------------------------------------------------------------------------------- helpers
@@ -734,6 +902,60 @@ def expected_pairs(na, pna, al):
     return out
 
 
+MARKING_FEATURES = ["loudness_direction_feature", "articulation_feature", "tempo_direction_feature", "slur_feature"]
+
+
+def eval_markings(ev, na, pna, al, part_or_na, perf_or_na, toks, ms, sids, rows, dangling):
+    """to_matched_score(..., include_score_markings=True): the column dispatch (score object / note array), the voice and
+    the feature columns.  Oracle: the table with markings holds the same rows in the same order under the same ids as the
+    table without, and every marking column holds what the score-side note table says about that note."""
+    import partitura.musicanalysis.performance_codec as pc
+    from partitura.musicanalysis import note_features
+
+    is_arr = isinstance(part_or_na, np.ndarray)
+    feats, voices, fna = [], [0] * len(na), None
+    if not is_arr:
+        fna, e = call(note_features.compute_note_array, part_or_na, feature_functions=MARKING_FEATURES)
+        if e is not None or len(fna) != len(na) or [str(x) for x in fna["id"]] != [str(x) for x in na["id"]]:
+            return  # the score-side table itself is not this property's business (C05)
+        feats = [f for f in fna.dtype.names if "feature" in f]
+        voices = [int(v) for v in fna["voice"]]
+    r, e = call(pc.to_matched_score, part_or_na, perf_or_na, copy_al(al), include_score_markings=True)
+    ev.requests.append("msx 1 %s %s %s %s" % (W.b(is_arr), W.lst(W.s, feats), W.lst(W.i, voices), " ".join(toks)))
+    if e is not None:
+        ev.impl.append("err")
+        if not dangling:
+            ev.oracle.append("matched-table: to_matched_score(include_score_markings=True, %s) raised %s: %s, without the markings it returns %d rows" % (
+                "note array" if is_arr else "score object", type(e).__name__, e, len(ms)))
+        return
+    mx, sx = r
+    names = list(mx.dtype.names)
+    vcol = "-" if is_arr else [int(v) for v in mx["voice"]] if "voice" in names else "?"
+    rx = [[rows[k][0] if k < len(rows) else -2, float(mx["onset"][k]), float(mx["duration"][k]), int(mx["pitch"][k]), float(mx["p_onset"][k]),
+           float(mx["p_duration"][k]), int(mx["velocity"][k])] for k in range(len(mx))]
+    ev.impl.append(("@approx", [names, rx, [str(x) for x in sx], vcol], T32))
+    if dangling:
+        return
+    base = ("onset", "duration", "pitch", "p_onset", "p_duration", "velocity")
+    if [str(x) for x in sx] != [str(x) for x in sids] or any(mx[c].tobytes() != ms[c].tobytes() for c in base):
+        ev.oracle.append("matched-table: with include_score_markings the rows / snote_ids differ from the table without: %r vs %r" % (
+            [str(x) for x in sx][:8], [str(x) for x in sids][:8]))
+        return
+    if fna is not None:
+        row = first_index(fna["id"])
+        for k, sid in enumerate(sx):
+            i = row.get(str(sid))
+            if i is None:
+                continue
+            for f in ["voice"] + feats:
+                # (which markings there are is not the property's business: a column the table does not have is left to the
+                # comparison of the column names with the model)
+                if f in names and mx[f][k] != fna[f][i]:
+                    ev.oracle.append("matched-table: marking column %s of note %s is %r, the score's note table has %r" % (
+                        f, sid, mx[f][k], fna[f][i]))
+                    return
+
+
 def eval_tables(ev, na, pna, al, part_or_na, perf_or_na, judge_ms=True):
     """requests ms / mn + oracle of the matched-table clause; returns (m_score, snote_ids) or None"""
     import partitura.musicanalysis.performance_codec as pc
@@ -767,6 +989,7 @@ def eval_tables(ev, na, pna, al, part_or_na, perf_or_na, judge_ms=True):
         rows.append([si.get(str(sids[k]), -1), float(ms["onset"][k]), float(ms["duration"][k]), int(ms["pitch"][k]),
                      float(ms["p_onset"][k]), float(ms["p_duration"][k]), int(ms["velocity"][k])])
     ev.impl.append(("@approx", rows, T32))
+    eval_markings(ev, na, pna, al, part_or_na, perf_or_na, toks, ms, sids, rows, dangling)
     # oracle: rows = exactly the matches with both ids present, ordered by (onset, pitch)
     if not dangling:
         want = sorted((int(na["onset_div"][i]), int(na["pitch"][i]), str(na["id"][i]), float(na["onset_beat"][i]),
@@ -923,6 +1146,16 @@ def eval_codec_combo(ev, part, pp, al, ms, sids, norm, method, info, pobj=None):
                                     [float(x) for x in params["velocity"]]], 2.0 ** -18))
         if [str(x) for x in sids2] != [str(x) for x in sids]:
             ev.oracle.append("matched-table: encode_performance returned snote_ids %r, to_matched_score %r" % (list(sids2)[:8], list(sids)[:8]))
+    if norm == "beat_period_standardized" and len(params):
+        # z*std + mean is evaluated in float32 by the decoder: a beat period below the single-precision resolution of the
+        # two terms that cancel (2^-21 of |z*std| + mean: score onsets 1e-4 beat apart next to colliding performed onsets
+        # give beat periods of 1e-5 and of 1e3 in one curve) is not representable by these parameters at all - it may come
+        # back with the wrong sign, which PerformedPart refuses; nothing can be judged "within single-precision rounding"
+        zs = np.abs(params["beat_period_standardized"].astype(float) * params["beat_period_std"].astype(float))
+        mu = float(params["beat_period_mean"][0])
+        if np.any(params["beat_period"].astype(float) < 2.0 ** -21 * (zs + mu)):
+            info["unrepresentable"] = info.get("unrepresentable", 0) + 1
+            return
     # decode
     r, e = call(pc.decode_performance, part, params, snote_ids=list(sids2), beat_normalization=norm)
     prow = [str(len(ms))]
@@ -957,6 +1190,10 @@ def eval_codec_combo(ev, part, pp, al, ms, sids, norm, method, info, pobj=None):
         span = float(so.max() - so.min()) + float(sd.max()) + 1.0
         rtol = max(rtol, T32 * max(8.0, amp, span * (3 * float(zs.max()) + 2 * mu)))
     ev.impl.append(("@approx", out, rtol))
+    # the same call with return_alignment=True: ids, midi_pitch, onsets, durations, velocities and the returned alignment
+    r2, e2 = call(pc.decode_performance, part, params, snote_ids=list(sids2), beat_normalization=norm, return_alignment=True)
+    ev.requests.append("decf %s %s %s %s" % (norm, " ".join(score_tokens(sna)), W.lst(W.s, sids2), " ".join(prow)))
+    ev.impl.append("err" if e2 is not None else ("@approx", notes_full(r2), rtol))
 
     # ---- oracle: decode(encode(x)) = x for every matched note
     exp = expected_pairs(sna, pna, al)
@@ -1065,6 +1302,47 @@ def eval_decode_table(ev, na, d):
     ev.impl.append(("@approx", out, T32 * 4))
 
 
+def notes_full(res):
+    ppart, al = res
+    notes = [[str(n["id"]), int(n["midi_pitch"]), float(n["note_on"]), float(n["note_off"] - n["note_on"]), int(n["velocity"])] for n in ppart.notes]
+    notes = [[a, b, (c if math.isfinite(c) else None), (d if math.isfinite(d) else None), v] for a, b, c, d, v in notes]
+    return [notes, [[str(a["score_id"]), str(a["performance_id"])] for a in al]]
+
+
+def eval_decode_full(ev, na, d):
+    """decode_performance with everything it returns (ids, midi_pitch clipped to 1..127, onsets, durations, velocities, the
+    alignment of return_alignment=True), without snote_ids (all rows), with more / fewer parameter rows than notes"""
+    import partitura.musicanalysis.performance_codec as pc
+
+    r = random.Random(len(na) * 977 + len(d["al"]) * 13 + len(d["perf"]) + 5)
+    ids = [str(x) for x in na["id"]]
+    if not ids:
+        return None
+    variant = r.choice(["none", "none", "none_extra", "given", "given_extra", "short"])
+    if variant.startswith("none"):
+        sel, n = None, len(ids)
+    else:
+        sel = [r.choice(ids) for _ in range(r.randint(1, len(ids)))]
+        if r.random() < 0.08:
+            sel.insert(r.randrange(len(sel) + 1), "zz9")
+        n = len(sel)
+    m = max(0, n + {"none": 0, "none_extra": 2, "given": 0, "given_extra": 1, "short": -1}[variant])
+    params = np.zeros(m, dtype=[(nm, "f4") for nm in ("beat_period", "velocity", "timing", "articulation_log")])
+    params["beat_period"] = [r.randint(16, 256) / 128 for _ in range(m)]
+    params["velocity"] = [r.randint(0, 140) / 127 for _ in range(m)]
+    params["timing"] = [r.randint(-64, 64) / 256 for _ in range(m)]
+    params["articulation_log"] = [r.randint(-2, 2) for _ in range(m)]
+    res, e = call(pc.decode_performance, _Table(na), params, snote_ids=(None if sel is None else list(sel)),
+                  beat_normalization="beat_period", return_alignment=True)
+    prow = [str(m)]
+    ratio32 = pow2(params["articulation_log"])
+    for k in range(m):
+        prow += ["x", q(params["timing"][k]), q(ratio32[k]), q(params["velocity"][k]), W.lst(q, [params["beat_period"][k]])]
+    ev.requests.append("decf beat_period %s %s %s" % (" ".join(score_tokens(na)), "-" if sel is None else W.lst(W.s, sel), " ".join(prow)))
+    ev.impl.append("err" if e is not None else ("@approx", notes_full(res), T32 * 4))
+    return variant
+
+
 def eval_time_maps(ev, part, pp, al, remove_orn, rng, pobj=None):
     import partitura.musicanalysis.performance_codec as pc
 
@@ -1092,6 +1370,13 @@ def eval_time_maps(ev, part, pp, al, remove_orn, rng, pobj=None):
         qp += [min(mp) - 0.75, max(mp) + 1.5]
     for a, b in zip(sorted(mp), sorted(mp)[1:]):
         qp.append((a + b) / 2)
+    # mean performed onsets that (nearly) coincide - collisions of a late passage, exact ties: the performance->score map has
+    # (nearly) vertical segments there; np.mean of the float32 onsets is itself a float32, so which of two such knots comes
+    # first, and whether they coincide, is decided by a rounding error.  The property speaks about that map for strictly
+    # increasing means only: it is then neither compared nor judged
+    smp0 = sorted(mp)
+    if any(b - a <= T32 * max(1.0, abs(b)) for a, b in zip(smp0, smp0[1:])):
+        qp = []
     r, e = call(pc.get_time_maps_from_alignment, pp if pobj is None else pobj, part, copy_al(al), remove_orn)
     toks = [W.b(remove_orn), str(len(rows))]
     for so, sd, po in rows:
@@ -1151,12 +1436,195 @@ def eval_time_maps(ev, part, pp, al, remove_orn, rng, pobj=None):
         if v is None or abs(v - w) > T32 * max(1, abs(w)):
             ev.oracle.append("time-maps: score->performance map is not linear between matched onsets %r and %r: %r vs %r" % (us[i], us[i + 1], v, w))
             break
-    if all(a < b for a, b in zip(mp, mp[1:])):
+    if qp and all(a < b for a, b in zip(mp, mp[1:])):
         for i in range(n):
             if vp[i] is None or abs(vp[i] - us[i]) > T32 * (max(1, abs(us[i]), abs(us[0]), abs(us[-1])) + amp):
                 ev.oracle.append("time-maps: performance->score map at mean performed onset %r gives %r, score onset is %r (remove_ornaments=%r)" % (
                     mp[i], vp[i], us[i], remove_orn))
                 break
+
+
+# ---------------------------------------------------------------------------------- direct arrays, helpers (round 5)
+def eval_arrays(ev, d, info):
+    """encode_tempo / decode_time / the two tempo curves with their optional arguments, on hand-made arrays"""
+    import partitura.musicanalysis.performance_codec as pc
+
+    arrs = dict((k, np.array(d[k], dtype=float)) for k in ("so", "po", "sd", "pd"))
+    cut = d.get("cut")
+    if cut == "all":
+        arrs = dict((k, v[:0]) for k, v in arrs.items())
+    elif cut:
+        arrs[cut] = arrs[cut][:-1]
+    so, po, sd, pd = arrs["so"], arrs["po"], arrs["sd"], arrs["pd"]
+    norm = d["norm"]
+    r = random.Random(d["seed"])
+    toks = " ".join(W.lst(q, arrs[k]) for k in ("so", "po", "sd", "pd"))
+    for method in ("average", "derivative"):
+        res, e = call(pc.encode_tempo, score_onsets=so, performed_onsets=po, score_durations=sd, performed_durations=pd,
+                      return_u_onset_idx=True, beat_normalization=norm, tempo_smooth=method)
+        if e is not None:
+            ev.requests.append("enct %s %s 0 %s" % (norm, method, toks))
+            ev.impl.append("err")
+            info["enct_err"] = info.get("enct_err", 0) + 1
+            if not cut:
+                ev.oracle.append("roundtrip: encode_tempo(%s,%s) raised %s: %s" % (norm, method, type(e).__name__, e))
+            continue
+        params, uidx = res
+        if cut:
+            # arrays of different lengths that were accepted: compared with the model (which refuses them)
+            ev.requests.append("enct %s %s 0 %s" % (norm, method, toks))
+            ev.impl.append("accepted")
+            continue
+        bad = [nm for nm in params.dtype.names if not np.all(np.isfinite(params[nm]))]
+        if bad:
+            ev.oracle.append("roundtrip(%s,%s): encode_tempo produced non-finite parameters in %s" % (norm, method, bad))
+            continue
+        fun = {"average": pc.tempo_by_average, "derivative": pc.tempo_by_derivative}[method]
+        bp64 = np.asarray(fun(score_onsets=so, performed_onsets=po, score_durations=sd, performed_durations=pd)[0], dtype=float)
+        if not (np.all(np.isfinite(bp64)) and np.all(bp64 > 0)):
+            ev.oracle.append("roundtrip: %s beat periods are not positive and finite: %r" % (method, bp64[:8].tolist()))
+            continue
+        std, mean = float(np.std(bp64)), float(np.mean(bp64))
+        rnorm = norm
+        if norm == "beat_period_standardized" and 0 < std < 1e-9 * mean:
+            rnorm = "beat_period"
+        art = params["articulation_log"].astype(float)
+        cols = [[float(x) for x in param_cols(rnorm, params, k)] for k in range(len(params))]
+        ev.requests.append("enct %s %s %s %s" % (rnorm, method, q(std), toks))
+        ev.impl.append(("@approx", [[float(x) for x in params["beat_period"]], [float(x) for x in params["timing"]],
+                                    [float(2.0 ** a) for a in art], cols], 2.0 ** -18))
+        info["groups"] = len(uidx)
+        # ---- the tempo curve with its optional arguments: a coarser grouping, sampling points of the caller
+        idx = None
+        if r.random() < 0.4 and len(uidx) > 1:
+            idx, cur = [], [int(i) for i in uidx[0]]
+            for g in uidx[1:]:
+                if r.random() < 0.4:
+                    cur += [int(i) for i in g]
+                else:
+                    idx.append(cur)
+                    cur = [int(i) for i in g]
+            idx.append(cur)
+        inp = None
+        if r.random() < 0.7:
+            us = sorted(set(float(np.mean(so[g])) for g in (idx or uidx)))
+            # the knots themselves are sampled only where the mean is a binary64 number (a sampling point a rounding error
+            # away from a knot is on the other side of it in exact arithmetic)
+            exact = [u for u, g in zip(us, sorted((idx or uidx), key=lambda g: float(np.mean(so[g]))))
+                     if fr(u) == sum(fr(so[i]) for i in g) / len(g)]
+            inp = exact + [(3 * a + b) / 4 for a, b in zip(us, us[1:])] + [us[0] - 1.25, us[-1] + 0.375, us[-1] + 3.0]
+            r.shuffle(inp)
+        kw = {}
+        if idx is not None:
+            kw["unique_onset_idxs"] = [np.array(g, dtype=int) for g in idx]
+        if inp is not None:
+            kw["input_onsets"] = np.array(inp, dtype=float)
+        cv, e2 = call(fun, score_onsets=so, performed_onsets=po, score_durations=sd, performed_durations=pd, **kw)
+        rows = [str(len(so))]
+        for k in range(len(so)):
+            rows += [q(so[k]), q(sd[k]), q(po[k]), q(pd[k])]
+        ev.requests.append("tat %s %s %s %s" % (method, "-" if idx is None else W.lst(lambda g: W.lst(W.i, g), idx),
+                                                 "-" if inp is None else W.lst(q, inp), " ".join(rows)))
+        info["tat_idx"] = info.get("tat_idx", 0) + (idx is not None)
+        info["tat_inp"] = info.get("tat_inp", 0) + (inp is not None)
+        if e2 is not None:
+            ev.impl.append("err")
+        else:
+            ev.impl.append(("@approx", [(float(x) if math.isfinite(x) else None) for x in np.atleast_1d(cv[0])], 1e-7))
+        # ---- decode_time of the parameters, compared with the model and judged against the performance
+        dres, e3 = call(pc.decode_time, score_onsets=so, score_durations=sd, parameters=params, normalization=norm)
+        ids = ["a%d" % k for k in range(len(so))]
+        stoks = [str(len(so))]
+        for k in range(len(so)):
+            stoks += [W.s(ids[k]), W.i(k), W.i(60), q(so[k]), q(sd[k])]
+        prow = [str(len(so))]
+        ratio32 = pow2(params["articulation_log"])
+        for k in range(len(so)):
+            prow += [W.s(ids[k]), q(params["timing"][k]), q(ratio32[k]), q(params["velocity"][k]), W.lst(q, param_cols(norm, params, k))]
+        ev.requests.append("dec %s %s %s" % (norm, " ".join(stoks), " ".join(prow)))
+        if e3 is not None:
+            ev.impl.append("err")
+            ev.oracle.append("roundtrip: decode_time(%s,%s) raised %s: %s" % (norm, method, type(e3).__name__, e3))
+            continue
+        on = [(float(x) if math.isfinite(x) else None) for x in dres[:, 0]]
+        du = [(float(x) if math.isfinite(x) else None) for x in dres[:, 1]]
+        rtol = T32 * max(1.0, float(np.max(np.abs(params["timing"]))))
+        logx = 0.0
+        if norm in ("beat_period_log", "beat_period_ratio_log"):
+            logx = float(np.max(np.abs(params[norm].astype(float))))
+            rtol *= max(1.0, logx / 4)
+        if norm == "beat_period_standardized":
+            zs = np.abs(params["beat_period_standardized"].astype(float) * params["beat_period_std"].astype(float))
+            mu = float(params["beat_period_mean"][0])
+            b = np.abs(params["beat_period"].astype(float))
+            amp = float(np.max((3 * zs + 2 * mu + b) / np.maximum(b, 1e-300)))
+            span = float(so.max() - so.min()) + float(sd.max()) + 1.0
+            rtol = max(rtol, T32 * max(8.0, amp, span * (3 * float(zs.max()) + 2 * mu)))
+        ev.impl.append(("@approx", [[ids[k], on[k], du[k], 1] for k in range(len(so))], rtol))
+        if any(x is None for x in on + du):
+            ev.oracle.append("nonfinite(%s,%s): decode_time returned NaN/inf onsets or durations" % (norm, method))
+            continue
+        tim = float(np.max(np.abs(params["timing"])))
+        scale = max(abs(x) for x in on) + 2 * tim
+        if norm == "beat_period_standardized":
+            span = float(so.max() - so.min()) + float(sd.max()) + 1.0
+            scale = 4 * scale + 5 * float(params["beat_period_mean"][0]) * span
+        tol_on = T32 * max(1.0, scale) * max(1.0, logx / 4)
+        shift = float(np.median([po[k] - on[k] for k in range(len(so))]))
+        for k in range(len(so)):
+            if abs(on[k] - (po[k] - shift)) > tol_on:
+                ev.oracle.append("onset(%s,%s): note %d decoded at %r, performed at %r - common shift %r (tolerance %.3g)" % (
+                    norm, method, k, on[k], float(po[k]), shift, tol_on))
+            a = abs(float(params["articulation_log"][k]))
+            cond = 1.0
+            if norm == "beat_period_standardized":
+                b = float(params["beat_period"][k])
+                mu = float(params["beat_period_mean"][k])
+                cond = max(1.0, (3 * abs(b - mu) + 2 * mu + b) / (4 * b)) if b > 0 else 1.0
+            tol_du = T32 * max(1.0, a + logx / 4) * cond * float(pd[k])
+            if abs(du[k] - float(pd[k])) > tol_du:
+                what = "grace" if (sd[k] <= 0 and du[k] == 0) else "other"
+                ev.oracle.append("duration/%s(%s,%s): note %d decoded duration %r, performed %r (score duration %r)" % (
+                    what, norm, method, k, du[k], float(pd[k]), float(sd[k])))
+
+
+def eval_helpers(ev, d, info):
+    import partitura.musicanalysis.performance_codec as pc
+    from partitura.utils.generic import interp1d, monotonize_times
+
+    # the zero-order interpolator of tempo_by_average
+    ks = d["ks"]
+    f, e = call(interp1d, np.array([k[0] for k in ks], dtype=float), np.array([k[1] for k in ks], dtype=float), kind="zero",
+                bounds_error=False, fill_value=(d["lo"], d["hi"]))
+    vals, e = call(lambda: [float(x) for x in np.atleast_1d(f(np.array(d["qs"], dtype=float)))]) if e is None else (None, e)
+    ev.requests.append("zh %s %s %s %s" % (W.lst(lambda k: q(k[0]) + " " + q(k[1]), ks), q(d["lo"]), q(d["hi"]), W.lst(q, d["qs"])))
+    ev.impl.append("err" if e is not None else ("@approx", [(v if math.isfinite(v) else None) for v in vals], 1e-12))
+    xs = sorted(k[0] for k in ks)
+    for x in d["qs"]:
+        b = "single" if len(xs) == 1 else "below" if x < xs[0] else "above" if x > xs[-1] else "knot" if x in xs else "between"
+        info["zh_" + b] = info.get("zh_" + b, 0) + 1
+    # monotonize_times(s) without abscissae
+    r, e = call(monotonize_times, np.array(d["ss"], dtype=float))
+    ev.requests.append("mono0 " + W.lst(q, d["ss"]))
+    ev.impl.append("err" if e is not None else ("@approx", [[float(v) for v in r[0]], [float(v) for v in r[1]]], 1e-9))
+    # get_unique_onset_idxs(onsets, eps, return_unique_onsets=True)
+    r, e = call(pc.get_unique_onset_idxs, np.array(d["ons"], dtype=float), eps=d["eps"], return_unique_onsets=True)
+    ev.requests.append("uon %s %s" % (q(d["eps"]), W.lst(q, d["ons"])))
+    if e is not None:
+        ev.impl.append("err")
+    else:
+        ev.impl.append(("@approx", [[[int(i) for i in g] for g in r[0]], [float(v) for v in r[1]]], 1e-12))
+        info["uon_groups"] = len(r[0])
+    # notewise_to_onsetwise / onsetwise_to_notewise
+    gs = [np.array(g, dtype=int) for g in d["groups"]]
+    gt = W.lst(lambda g: W.lst(W.i, g), d["groups"])
+    r, e = call(pc.notewise_to_onsetwise, np.array(d["vals"], dtype=float), gs)
+    ev.requests.append("n2o %s %s" % (W.lst(q, d["vals"]), gt))
+    ev.impl.append("err" if e is not None else ("@approx", [float(v) for v in r], 1e-12))
+    r, e = call(pc.onsetwise_to_notewise, np.array(d["wvals"], dtype=float), gs)
+    ev.requests.append("o2n %s %s" % (W.lst(q, d["wvals"]), gt))
+    ev.impl.append("err" if e is not None else ("@approx", [float(v) for v in r], 1e-12))
+    info["groups_" + d["gkind"]] = 1
 
 
 def evaluate(d):
@@ -1218,11 +1686,26 @@ def evaluate(d):
                 ev.oracle.append("normalisation(%s): rescale(scale(bp)) = %r for bp = %r" % (norm, back.tolist()[:6], bps.tolist()[:6]))
         ev.key = "scale%d%s" % (len(bps), "c" if std == 0 else "")
         return ev
+    if k == "arrays":
+        info = {}
+        eval_arrays(ev, d, info)
+        ev.info = dict(info, arrays=1)
+        ng = info.get("groups", 0)
+        ev.key = ("arrays g%d n%d %s %s %s" % (ng, len(d["so"]), d["mode"], d["norm"][12:], d.get("cut"))) if (ng >= 2 or d.get("cut")) else None
+        return ev
+    if k == "helpers":
+        info = {}
+        eval_helpers(ev, d, info)
+        ev.info = dict(info, helpers=1)
+        ev.key = "helpers k%d m%d%s o%d %s%d" % (len(d["ks"]), len(d["ss"]), d["mmode"], len(d["ons"]), d["gkind"], len(d["groups"]))
+        return ev
     if k == "tables":
         na = score_array(d["score"])
         pna = perf_array(d["perf"])
         eval_tables(ev, na, pna, d["al"], na, pna)
         eval_decode_table(ev, na, d)
+        variant = eval_decode_full(ev, na, d)
+        ev.info = {"decf": variant}
         ev.key = "tables%d/%d/%d" % (len(na), len(pna), len(d["al"]))
         return ev
     # ---- codec
@@ -1374,6 +1857,9 @@ def distribution(descs, results):
     combos = Counter("%s/%s" % tuple(c) for d in descs if d.get("k") == "codec" for c in d["combos"])
     groups = Counter(min(20, (r.get("info") or {}).get("groups", 0)) // 5 * 5 for d, r in zip(descs, results) if d.get("k") == "codec")
     labels = Counter(a["label"] for d in descs if d.get("k") in ("codec", "tables") for a in d["al"])
+
+    def tot(key):
+        return sum(int((r.get("info") or {}).get(key, 0) or 0) for r in results)
     return {"kinds": dict(kinds), "performance_modes": dict(modes), "normalisation_x_method": dict(combos),
             "onset_groups_bucket": {str(k): v for k, v in sorted(groups.items())}, "alignment_labels": dict(labels),
             "with_grace_notes": sum(1 for r in results if (r.get("info") or {}).get("grace")),
@@ -1382,4 +1868,13 @@ def distribution(descs, results):
             "structural_deletions": dict(Counter(d.get("struct") for d in descs if d.get("struct"))),
             "warm_builds": sum(1 for d in descs if d.get("k") == "codec" and d["part"].get("warm")),
             "score_argument_kinds": dict(Counter(d.get("as", "part") for d in descs if d.get("k") == "codec")),
-            "short_note_cases": sum(1 for d in descs if d.get("short"))}
+            "short_note_cases": sum(1 for d in descs if d.get("short")),
+            "codec_cases_with_score_markings": sum(1 for d in descs if d.get("k") == "codec" and d["part"].get("extras")),
+            "array_cases": {"modes": dict(Counter(d.get("mode") for d in descs if d.get("k") == "arrays")),
+                            "length_mismatch": dict(Counter(d.get("cut") for d in descs if d.get("k") == "arrays" and d.get("cut"))),
+                            "encode_tempo_refused": tot("enct_err"), "tempo_with_caller_groups": tot("tat_idx"),
+                            "tempo_with_input_onsets": tot("tat_inp")},
+            "zero_order_queries": dict((b, tot("zh_" + b)) for b in ("single", "below", "above", "knot", "between")),
+            "onsetwise_group_shapes": dict((g, tot("groups_" + g)) for g in ("partition", "overlap", "outside")),
+            "monotonize_without_abscissae": dict(Counter(d.get("mmode") for d in descs if d.get("k") == "helpers")),
+            "decode_full_variants": dict(Counter((r.get("info") or {}).get("decf") for r in results if (r.get("info") or {}).get("decf")))}
